@@ -26,6 +26,11 @@ def cells(tier):
     for old, seq in [(1, [2, 1]), (2, [0, 3]), (3, [1, -1, "inf"]), ("inf", [1, 2])]:
         sc = scen(pool(old), [[A("A", 2)], [M("M", 2, 2)], [["set_size", v] for v in seq]], outcomes=["ret", "exc"])
         out.append(cell(f"{old}->{seq} A2|M2/2", sc, MON))
+    for new in [1, 2]:
+        sc = scen(pool("inf"), [[A("A", 3)], [cancel(rid("A", 0))], [["set_size", new], A("B", 2)]], outcomes=["ret"], ecb="plain", ccb="slow", slow_ids=[0])
+        out.append(cell(f"inf->{new} A3 cancel0(slow ccb) then B2", sc, MON))
+        sc = scen(pool(3), [[A("A", 3)], [cancel(rid("A", 1))], [["set_size", new], A("B", 2)]], outcomes=["ret"], ecb="slow", ccb="plain", slow_ids=[1])
+        out.append(cell(f"3->{new} A3 cancel1(slow ecb) then B2", sc, MON))
     sc = scen(pool(1, "SimpleTaskPool"), [[S("S", 3)], [["set_size", 2]], [["set_size", 0]]], outcomes=["ret"])
     out.append(cell("simple 1->2,->0 S3", sc, MON))
     if not q:
